@@ -23,7 +23,7 @@
 (***************************************************************************)
 EXTENDS BTree
 
-CONSTANT Deviation   \* "none" | "desc_excl_keeps_pivot" | "steal_left_drops_child" | "no_root_collapse"
+CONSTANT Deviation   \* "none" | "desc_excl_keeps_pivot" | "no_root_collapse"
 
 VARIABLES
   conc,    \* handle -> [root |-> node, length |-> counter]
@@ -85,8 +85,7 @@ Grow(n, i, mn) ==         \* the three cases of growChildAndRemove, before the r
   THEN \* steal from left sibling
        LET child == n.ch[i]   sf == n.ch[i - 1]
            child2 == [items |-> <<n.items[i - 1]>> \o child.items,
-                      ch    |-> IF sf.ch # <<>> /\ Deviation # "steal_left_drops_child"
-                                THEN <<sf.ch[Len(sf.ch)]>> \o child.ch ELSE child.ch]
+                      ch    |-> IF sf.ch # <<>> THEN <<sf.ch[Len(sf.ch)]>> \o child.ch ELSE child.ch]
            sf2    == [items |-> DropLast(sf.items),
                       ch    |-> IF sf.ch # <<>> THEN DropLast(sf.ch) ELSE <<>>]
        IN [items |-> [n.items EXCEPT ![i - 1] = sf.items[Len(sf.items)]],
